@@ -68,7 +68,7 @@ pub fn oracle_a_with(m: &Message, tree: &Value, before: Option<&Message>) -> Res
             None => build(m),
             Some(d) => {
                 let mut b = MessageBuilder::new();
-                let _ = b.build_message(d).map(|f| f.len());
+                crate::msggen::use_builder_before(&mut b, d);
                 b.build_message(m).map(|f| f.to_vec()).map_err(|e| format!("{:?}", e))
             }
         };
